@@ -81,3 +81,35 @@ pub fn c11_float_overflow_guard() {
         }
     }
 }
+
+/// quick variant: shape  [-] d "e" d d d
+#[kani::proof]
+#[kani::unwind(8)]
+#[kani::stub(str::replace, stub_replace_underscore)]
+#[kani::stub(<f64 as core::str::FromStr>::from_str, stub_f64_from_str)]
+pub fn c11_float_overflow_guard_small() {
+    let mut buf = [0u8; 6];
+    let mut len = 0;
+    if kani::any() {
+        buf[len] = b'-';
+        len += 1;
+    }
+    buf[len] = any_digit();
+    buf[len + 1] = b'e';
+    buf[len + 2] = any_digit();
+    buf[len + 3] = any_digit();
+    buf[len + 4] = any_digit();
+    len += 5;
+    let s = &buf[..len];
+    match hooks::float(as_str(s)) {
+        Outcome::Ok(v, n) => {
+            assert!(n == len);
+            kani::cover!(v.is_sign_negative() && v != 0.0, "accepts a negative finite float");
+            assert!(v.is_finite(), "an overflowing float literal was accepted as an infinity");
+        }
+        _ => {
+            kani::cover!(buf[0] == b'-', "rejects an overflowing negative literal");
+            kani::cover!(buf[0] != b'-', "rejects an overflowing positive literal");
+        }
+    }
+}
